@@ -1,6 +1,7 @@
 package interp
 
 import (
+	shioridom "github.com/go-shiori/dom"
 	"bytes"
 	"go/types"
 	"io"
@@ -110,20 +111,26 @@ func init() {
 		v := value(native{strings.NewReader(conc(a[0]))})
 		return &v
 	}
+	// dom.Parse = charset detection + transcoding + NFC normalisation +
+	// html.Parse. The input is concrete here, so the REAL function is run
+	// natively (same module version as /repo's go.mod) and its tree is modelled.
 	intrinsics["github.com/go-shiori/dom.Parse"] = func(fr *frame, a []value) value {
 		r := readerOf(a[0])
 		if r == nil {
 			panic(unsupported{"dom.Parse of an unmodelled reader"})
 		}
-		content, _ := io.ReadAll(r)
-		for _, c := range content {
-			if c >= 0x80 {
-				// dom.Parse = charset detection + transcoding + NFC + html.Parse;
-				// only for ASCII input is that provably html.Parse alone
-				panic(unsupported{"dom.Parse of non-ASCII bytes (charset detection is outside the model)"})
-			}
+		doc, err := shioridom.Parse(r)
+		if err != nil {
+			return tuple{(*value)(nil), mkErr(err.Error())}
 		}
-		doc, err := html.Parse(bytes.NewReader(content))
+		return tuple{newNodeMap().model(doc), iface{}}
+	}
+	intrinsics["github.com/go-shiori/dom.FastParse"] = func(fr *frame, a []value) value {
+		r := readerOf(a[0])
+		if r == nil {
+			panic(unsupported{"dom.FastParse of an unmodelled reader"})
+		}
+		doc, err := html.Parse(r)
 		if err != nil {
 			return tuple{(*value)(nil), mkErr(err.Error())}
 		}
